@@ -15,6 +15,8 @@ pub struct Shrinker<'a> {
     pub budget: usize,
     pub deadline: Instant,
     pub runs: usize,
+    /// evaluate candidates in a fresh child process (for violations that depend on process state)
+    pub child_exe: Option<String>,
 }
 
 impl<'a> Shrinker<'a> {
@@ -23,6 +25,9 @@ impl<'a> Shrinker<'a> {
             return false;
         }
         self.runs += 1;
+        if let Some(exe) = &self.child_exe {
+            return crate::child_violations(exe, sc, false).map_or(false, |os| os.iter().any(|o| *o == self.oracle));
+        }
         let out = execute(sc, self.corpus, self.armed, &self.opts);
         out.violations.iter().any(|v| v.oracle == self.oracle)
     }
